@@ -20,6 +20,8 @@ type Env struct {
 	phiSubst map[*ssa.Phi]Val
 	pkg      *types.Package
 	noLocals bool
+	entry    Heap                // heap on entry of the enclosing loop (atentry)
+	entryPhi map[*ssa.Phi]Val    // loop-carried variables on entry of the enclosing loop
 }
 
 func (g *Gen) newEnv(h, old Heap, b *ssa.BasicBlock) *Env {
@@ -223,7 +225,7 @@ func (e *Env) ident(name string) (Val, error) {
 			}
 			return mv, nil
 		}
-		return Val{T: t, S: vs, Ty: ghostGoType(gv.Type)}, nil
+		return Val{T: t, S: vs, Ty: g.ghostType(gv.Type)}, nil
 	}
 	if e.pkg != nil {
 		if v, ok := e.pkgMember(e.pkg, name); ok {
@@ -233,8 +235,26 @@ func (e *Env) ident(name string) (Val, error) {
 	return Val{}, fmt.Errorf("unknown name %q", name)
 }
 
+// ghostType is ghostGoType plus named pointer types ("*proto.Message", also as "array:*proto.Message").
+func (g *Gen) ghostType(t string) types.Type {
+	base := strings.TrimPrefix(t, "array:")
+	if strings.HasPrefix(base, "*") {
+		if ty, err := g.resolveType(base); err == nil {
+			return ty
+		}
+	}
+	return ghostGoType(t)
+}
+
 func ghostGoType(t string) types.Type {
+	if strings.HasPrefix(t, "array:") {
+		return ghostGoType(t[len("array:"):]) // the type of the array's values (kept through indexing)
+	}
 	switch t {
+	case "[]string":
+		return types.NewSlice(types.Typ[types.String])
+	case "[]byte", "bytes":
+		return types.NewSlice(types.Typ[types.Uint8])
 	case "int":
 		return types.Typ[types.Int]
 	case "bool":
@@ -560,6 +580,18 @@ func (e *Env) call(x *ECall) (Val, error) {
 			return fmt.Errorf("%s takes %d arguments", x.Fun, n)
 		}
 		return evalArgs()
+	}
+	if x.Fun == "atentry" {
+		if len(x.Args) != 1 {
+			return Val{}, fmt.Errorf("atentry takes one argument")
+		}
+		if e.entry == nil {
+			return Val{}, fmt.Errorf("atentry outside a loop invariant")
+		}
+		n := e.sub()
+		n.heap = e.entry
+		n.phiSubst = e.entryPhi
+		return n.eval(x.Args[0])
 	}
 	switch x.Fun {
 	case "len":
